@@ -1158,6 +1158,11 @@ class Sequence:
         returns a tuple of (dmax, seqDeltaMax)
         """
 
+        # a cached dmax without its permutant cannot answer a request for the
+        # permutant - forget it so the search below runs again
+        if returnSeqDeltaMax and self.seqDeltaMax is None:
+            self.dmax = -1
+
         # If this has been computed already, then return it
         if self.dmax != -1 and not returnSeqDeltaMax:
           return self.dmax
